@@ -58,6 +58,8 @@ pub enum Pat {
 #[derive(Clone, Debug, PartialEq)]
 pub enum S {
     Let(Pat, E),
+    /// `letrec f = |..| ..` (a local recursive function)
+    LetRec(String, E),
     Assign(String, E),
     Expr(E),
 }
@@ -190,6 +192,7 @@ pub fn ppat(p: &Pat) -> String {
 pub fn ps(s: &S, ind: usize) -> String {
     match s {
         S::Let(p, e) => format!("let {} = {}", ppat(p), pe(e, ind)),
+        S::LetRec(n, e) => format!("letrec {n} = {}", pe(e, ind)),
         S::Assign(n, e) => format!("{n} = {}", pe(e, ind)),
         S::Expr(e) => pe(e, ind),
     }
@@ -674,6 +677,13 @@ impl<'p> Interp<'p> {
                         S::Let(p, e) => {
                             let v = self.eval(e, env, node, selfv)?;
                             Self::bind_pat(p, v, env)?;
+                        }
+                        S::LetRec(n, e) => {
+                            // the name is in scope in its own definition: bind a cell first, fill it afterwards
+                            env.bind(n, V::Unit);
+                            let cell = env.get(n).unwrap();
+                            let v = self.eval(e, env, node, selfv)?;
+                            *cell.borrow_mut() = v;
                         }
                         S::Assign(n, e) => {
                             let v = self.eval(e, env, node, selfv)?;
